@@ -991,6 +991,15 @@ func (e *Env) call(x *ECall) Val {
 			return gv
 		}
 		return Val{T: c.mode.idxLit(0), Ty: intTy}
+	case "lastret":
+		st, ok := x.Args[0].(*EStr)
+		if !ok {
+			e.fail("lastret() needs a string literal")
+		}
+		if gv, ok := c.ghost["lastret "+normAnchor(st.Val)]; ok {
+			return gv
+		}
+		e.fail("lastret(%q): no call to that callee reaches this point", st.Val)
 	case "emod":
 		// emod(x, k): mathematical (always non-negative) remainder; cheaper for the solver than Go's signed %
 		a := e.mat(e.tr(x.Args[0]))
